@@ -47,6 +47,7 @@ def run(prog, chk):
     chk.rule(_C17b.scope_var_limit, prog, chk)  # a reuse attribute of exactly var-limit characters is accepted as the hand-written element would be
     chk.rule(_C17b.limit_predicates, prog, chk)
     chk.rule(C10.error_swallow, prog, chk)  # `${font-size}` in a template is the reuse attribute of that name: a reference is never left as written because a predicate said no; the registered state of a <specs> shape is the evaluated one
+    chk.rule(C10.registration_keys_agree, prog, chk)  # ids inside a template are evaluated with the reuse variables: withdrawn under the key they were registered under
 
 
 def _reuse_body(prog):
